@@ -100,6 +100,11 @@ def _is_num(e, v=None):
     return False
 
 
+def _PolyTerm(P):
+    """wrap an already-flattened polynomial as a term"""
+    return T("poly", (P,), P[0].rows, P[0].cols, ())
+
+
 class Normalizer:
     MAXSTEPS = 600
 
@@ -112,6 +117,7 @@ class Normalizer:
         self._cache = {}
         self._canon = {}
         self._reps = []
+        self.pos_inner = set()       # keys of inner polynomials whose diagonal part is known strictly positive
 
     # ---------- z3 helpers
     def valid(self, cond):
@@ -161,6 +167,8 @@ class Normalizer:
             t = T(t.op, t.args, self.cn(t.rows), self.cn(t.cols), t.props)
         r, cc = (t.cols, t.rows) if h else (t.rows, t.cols)
         one = z3.RealVal(1)
+        if t.op == "poly":
+            return self.adj_poly(t.args[0], h, c)
         if t.op == "sym":
             return [Mono(one, (), [self.atom_of_sym(t, h, c)], r, cc)]
         if t.op == "I":
@@ -255,11 +263,26 @@ class Normalizer:
                 if all(a.diag for a in m.atoms):
                     out.append(m)
                     continue
+                atoms = list(m.atoms)
+                lead, trail = [], []
+                while atoms and atoms[0].diag:
+                    lead.append(atoms.pop(0))
+                while atoms and atoms[-1].diag:
+                    trail.insert(0, atoms.pop())
+                if lead or trail:        # dg(D1 M D2) = D1 dg(M) D2
+                    core = T("dg", (_PolyTerm([Mono(z3.RealVal(1), (), atoms, atoms[0].rows, atoms[-1].cols)]),),
+                             atoms[0].rows, atoms[-1].cols, ("diag",))
+                    cp = self.flat(core, False, False)
+                    for x in cp:
+                        out.append(Mono(m.coef * x.coef, self.smerge(m.scal, x.scal), lead + list(x.atoms) + trail, m.rows, m.cols))
+                    continue
                 inner = [Mono(z3.RealVal(1), (), m.atoms, m.rows, m.cols)]
                 herm = self.pkey(inner) == self.pkey(self.nf_poly(self.adj_poly(inner, True, False)))
                 a = Atom("dg", self.pkey(inner), t.rows, t.cols, diag=True,
                          real=herm or all(x.real for x in m.atoms), herm=herm, inner=inner)
                 a.nn = self._is_gram(m.atoms)
+                if self.pkey(inner) in self.pos_inner:
+                    a.pos = a.invt = a.nn = True
                 out.append(Mono(m.coef, m.scal, [a], m.rows, m.cols))
             return out
         if t.op == "tr":
@@ -372,6 +395,12 @@ class Normalizer:
         return out
 
     # ---------- rules from hypotheses
+    def add_pos(self, t):
+        """register: the diagonal part of term t is strictly positive (a precondition)"""
+        P = self.nf_poly(self.flat(t))
+        for m in P:
+            self.pos_inner.add(self.pkey([Mono(z3.RealVal(1), (), m.atoms, m.rows, m.cols)]))
+
     def add_hyp(self, lhs, rhs, name="hyp", orient=None):
         """lhs, rhs: terms.  orient: None = longer side is rewritten to shorter; 'lr' forces lhs->rhs"""
         L = self.nf_poly(self.flat(lhs))
@@ -533,6 +562,7 @@ class Normalizer:
         out = {}
         for m in P:
             for x in self.nf_mono(m):
+                x = self._fold_nums(x)
                 k = (x.skey(), tuple(str(z3.simplify(a.exp)) for a in x.atoms if a.diag),
                      tuple(str(z3.simplify(e)) for _, e in x.scal))
                 if k in out:
@@ -547,6 +577,24 @@ class Normalizer:
             x.coef = c
             res.append(x)
         return res
+
+    def _fold_nums(self, x):
+        """numeric scalar atoms with integer exponents are folded into the coefficient"""
+        if not any(k[0] == "num" for k, _ in x.scal):
+            return x
+        coef, keep = x.coef, []
+        for k, e in x.scal:
+            es = z3.simplify(e)
+            if k[0] == "num" and _is_num(es) and es.as_fraction().denominator == 1:
+                v = self.scalars[k][1]
+                nexp = int(es.as_fraction())
+                f = z3.RealVal(1)
+                for _ in range(abs(nexp)):
+                    f = f * v
+                coef = coef * f if nexp >= 0 else coef / f
+            else:
+                keep.append((k, e))
+        return Mono(coef, tuple(keep), x.atoms, x.rows, x.cols)
 
     def nf(self, t):
         return self.nf_poly(self.flat(t))
